@@ -1,4 +1,5 @@
 import RzilVerif.Model.Checks
+import RzilVerif.Lemmas.HeapLinear
 /-!
 # C12 — IL node ownership is linear
 
@@ -58,6 +59,118 @@ theorem protocol_counts (x : String) (n : Nat) :
   constructor
   · simp [countUses, List.filter_cons, List.filter_replicate]
   · simp [countUses, List.filter_cons, List.filter_replicate]
+
+/-! ## What linearity buys: no double free, no leak (heap model `Model/Heap.lean`) -/
+
+theorem run_vars (items : List Item) : (run items).nodes.map HNode.var = (heapDecls items).map Prod.fst := by
+  rw [← run_nodes, List.map_map]; rfl
+
+/-- Under distinct declared names the model's consumption count of a node is the checker's count:
+    raw uses, plus DUP'ed uses for an effect. -/
+theorem run_consumptions (items : List Item) (hdistinct : ilNamesDistinct items) (n : HNode)
+    (hn : n ∈ (run items).nodes) :
+    (run items).consumptions n =
+      countUses n.var false (allUses items) + (if n.eff then countUses n.var true (allUses items) else 0) := by
+  have hd : ((run items).nodes.map HNode.var).Nodup := by rw [run_vars]; exact hdistinct
+  rw [consumptions_eq _ hd n hn, run_moves]
+
+/-- An empty `linearProblems` report: every node owned by a declared variable is consumed exactly once. -/
+theorem linear_consumed_once (b : Body) (hdistinct : ilNamesDistinct b.items) (h : linearProblems b = [])
+    (n : HNode) (hn : n ∈ (run b.items).nodes) : (run b.items).consumptions n = 1 := by
+  rw [linearProblems_eq] at h
+  have hdecl := declProblems_nil _ _ (List.append_eq_nil_iff.mp h).1
+  have hk : (n.var, n.eff) ∈ heapDecls b.items := by
+    rw [← run_nodes]; exact List.mem_map.mpr ⟨n, hn, rfl⟩
+  have := hdecl _ _ hk
+  rw [run_consumptions _ hdistinct n hn]
+  cases hne : n.eff
+  · simpa using this.1 hne
+  · simpa using this.2 hne
+
+/-- **C12, the "consequently"**: if the counting checker reports nothing (and the declared IL names are
+    pairwise distinct, which `wfBody` checks), running the body consumes no node twice and leaves no node
+    unconsumed. -/
+theorem linear_no_double_free_no_leak (b : Body) (hdistinct : ilNamesDistinct b.items)
+    (h : linearProblems b = []) : NoDoubleFree (run b.items) ∧ NoLeak (run b.items) :=
+  ⟨fun n hn => Nat.le_of_eq (linear_consumed_once b hdistinct h n hn),
+   fun n hn => Nat.le_of_eq (linear_consumed_once b hdistinct h n hn).symm⟩
+
+/-- The parameter clause: a borrowed pure parameter is passed raw (consumed by a constructor) at most once. -/
+theorem linear_borrowed_param (b : Body) (h : linearProblems b = []) (f : String) (ps : List Param)
+    (hh : b.header = some (f, ps)) (p : Param) (hp : p ∈ ps) (hty : p.ty = "RZ_BORROW RzILOpPure *") :
+    (run b.items).rawMoves p.name ≤ 1 := by
+  rw [linearProblems_eq, hh] at h
+  have := paramProblems_nil _ _ (List.append_eq_nil_iff.mp h).2 p hp hty
+  simpa [HeapState.rawMoves, run_moves] using this
+
+/-- Converse for pures: a pure node consumed twice or more in the model is reported by the checker. -/
+theorem double_free_reported (b : Body) (hdistinct : ilNamesDistinct b.items) (n : HNode)
+    (hn : n ∈ (run b.items).nodes) (hpure : n.eff = false) (h2 : 2 ≤ (run b.items).consumptions n) :
+    s!"pure {n.var} is consumed {countUses n.var false (allUses b.items)} times without DUP (double free)"
+      ∈ linearProblems b := by
+  rw [run_consumptions _ hdistinct n hn, hpure] at h2
+  have hk : (n.var, false) ∈ heapDecls b.items := by
+    rw [← run_nodes, ← hpure]; exact List.mem_map.mpr ⟨n, hn, rfl⟩
+  rw [linearProblems_eq]
+  exact List.mem_append_left _ (declProblems_double_free _ _ _ hk (by simpa using h2))
+
+/-- Contrapositive reading: without the distinct-names hypothesis nothing is claimed; with it, a model-level
+    double free of a pure makes the report non-empty. -/
+theorem double_free_not_linear (b : Body) (hdistinct : ilNamesDistinct b.items) (n : HNode)
+    (hn : n ∈ (run b.items).nodes) (hpure : n.eff = false) (h2 : 2 ≤ (run b.items).consumptions n) :
+    linearProblems b ≠ [] := by
+  intro h
+  have := double_free_reported b hdistinct n hn hpure h2
+  rw [h] at this
+  cases this
+
+/-! ### kernel-checked examples for the heap model -/
+
+/-- `Rd = Rs + Rs`: the register value is read once, the second use goes through `DUP`. -/
+def exHeapLinear : Body := { header := none, items :=
+  [.decl "RzILOpPure *" "Rs" (.app "READ_REG" [.id "pkt", .id "Rs_op", .id "false"]),
+   .decl "RzILOpPure *" "op_ADD_2" (.app "ADD" [.id "Rs", .app "DUP" [.id "Rs"]]),
+   .decl "RzILOpEffect *" "op_ASSIGN_3" (.app "WRITE_REG" [.id "bundle", .id "Rd_op", .id "op_ADD_2"]),
+   .decl "RzILOpEffect *" "instruction_sequence" (.id "op_ASSIGN_3"),
+   .ret (.id "instruction_sequence")] }
+
+example : ilNamesDistinct exHeapLinear.items ∧ linearProblems exHeapLinear = [] := by decide
+example : NoDoubleFree (run exHeapLinear.items) ∧ NoLeak (run exHeapLinear.items) := by decide
+example : (run exHeapLinear.items).nodes.map HNode.id = [0, 1, 2, 3] := by decide
+
+/-- Two raw uses of `Rs`: the node is handed to `ADD` twice. -/
+def exHeapDouble : Body := { header := none, items :=
+  [.decl "RzILOpPure *" "Rs" (.app "READ_REG" [.id "pkt", .id "Rs_op", .id "false"]),
+   .decl "RzILOpPure *" "op_ADD_2" (.app "ADD" [.id "Rs", .id "Rs"]),
+   .decl "RzILOpEffect *" "op_ASSIGN_3" (.app "WRITE_REG" [.id "bundle", .id "Rd_op", .id "op_ADD_2"]),
+   .ret (.id "op_ASSIGN_3")] }
+
+example : ¬ NoDoubleFree (run exHeapDouble.items) ∧ NoLeak (run exHeapDouble.items) := by decide
+example : linearProblems exHeapDouble = ["pure Rs is consumed 2 times without DUP (double free)"] := by decide
+
+/-- An initialised pure that nothing uses (the dead `?:` arm shape). -/
+def exHeapLeak : Body := { header := none, items :=
+  [.decl "RzILOpPure *" "Rs" (.app "READ_REG" [.id "pkt", .id "Rs_op", .id "false"]),
+   .decl "RzILOpPure *" "Rt" (.app "READ_REG" [.id "pkt", .id "Rt_op", .id "false"]),
+   .decl "RzILOpEffect *" "op_ASSIGN_3" (.app "WRITE_REG" [.id "bundle", .id "Rd_op", .id "Rs"]),
+   .ret (.id "op_ASSIGN_3")] }
+
+example : NoDoubleFree (run exHeapLeak.items) ∧ ¬ NoLeak (run exHeapLeak.items) := by decide
+example : linearProblems exHeapLeak = ["pure Rt is initialised but never used (leak)"] := by decide
+
+/-- Only `DUP`ed: the clone is consumed, the original leaks. -/
+example : ¬ NoLeak (run [.decl "RzILOpPure *" "a" (.app "VARL" [.str "x"]),
+                         .ret (.app "SETL" [.str "y", .app "DUP" [.id "a"]])]) := by decide
+
+/-- The distinct-names hypothesis is needed: `a` declared twice, one raw use — the checker counts one use
+    of the NAME and is content, the model sees two nodes and one consumption. -/
+def exHeapDupName : Body := { header := none, items :=
+  [.decl "RzILOpPure *" "a" (.app "VARL" [.str "x"]),
+   .decl "RzILOpPure *" "a" (.app "VARL" [.str "y"]),
+   .ret (.app "SETL" [.str "z", .id "a"])] }
+
+example : linearProblems exHeapDupName = [] ∧ ¬ ilNamesDistinct exHeapDupName.items ∧
+    ¬ NoLeak (run exHeapDupName.items) := by decide
 
 -- non-vacuity (tests, labelled as tests): a linear body and a non-linear one
 example : linearProblems { header := none, items :=
